@@ -1636,6 +1636,9 @@ impl Op {
                         Value::BigUint(v) => v.width > 0 && v.payload.bit(v.width as u64 - 1),
                     };
                 if y_negative {
+                    // The base is -1 only when it is READ as signed: `expand`
+                    // leaves the operand's own flag set when no extension was
+                    // needed, so the propagated `signed` must agree too.
                     let exp_odd = match y {
                         Value::U64(v) => v.payload & 1 == 1,
                         Value::BigUint(v) => v.payload.bit(0),
@@ -1647,7 +1650,7 @@ impl Op {
                                 Value::U64(ValueU64::new_x(width, v.signed))
                             } else if v.payload & mask == 1 {
                                 Value::U64(ValueU64::new(1, width, v.signed))
-                            } else if v.signed && (v.payload & mask) == mask {
+                            } else if signed && v.signed && (v.payload & mask) == mask {
                                 let p = if exp_odd { mask } else { 1 };
                                 Value::U64(ValueU64::new(p, width, true))
                             } else {
@@ -1661,7 +1664,7 @@ impl Op {
                                 Value::BigUint(ValueBigUint::new_x(width, v.signed))
                             } else if p == b1() {
                                 Value::BigUint(ValueBigUint::new_biguint(b1(), width, v.signed))
-                            } else if v.signed && p == mask {
+                            } else if signed && v.signed && p == mask {
                                 let p = if exp_odd { mask } else { b1() };
                                 Value::BigUint(ValueBigUint::new_biguint(p, width, true))
                             } else {
